@@ -25,6 +25,7 @@
 #include <BayesFilters/FilteringAlgorithm.h>
 
 #include <atomic>
+#include <cerrno>
 #include <cstdio>
 #include <functional>
 #include <cstdlib>
@@ -57,6 +58,7 @@ std::atomic<bool> g_late_logged{false};
 std::atomic<bool> g_w_active{false};
 pthread_cond_t* g_w_cond = nullptr;
 sem_t g_w_sem;
+std::atomic<bool> g_fail_create{false};    // the next pthread_create fails (boot() cannot start the thread)
 std::atomic<bool> g_split{false};          // hold the controller at schedule point 6 (between reboot()'s stores)
 std::atomic<bool> g_at6{false};
 sem_t g_ctl_arrive, g_ctl_go;
@@ -129,6 +131,13 @@ extern "C" int pthread_cond_wait(pthread_cond_t* c, pthread_mutex_t* m) {
     arrive('v');                            // woken, mutex not yet re-acquired
     pthread_mutex_lock(m);
     return 0;
+}
+
+typedef int (*pc_t)(pthread_t*, const pthread_attr_t*, void* (*)(void*), void*);
+extern "C" int pthread_create(pthread_t* t, const pthread_attr_t* a, void* (*fn)(void*), void* arg) {
+    static pc_t real = (pc_t)dlsym(RTLD_NEXT, "pthread_create");
+    if (g_fail_create.exchange(false)) return EAGAIN;
+    return real(t, a, fn, arg);
 }
 
 extern "C" int pthread_cond_signal(pthread_cond_t* c) {
@@ -250,8 +259,16 @@ void run_life(int fd, const std::vector<std::string>& toks) {
     std::atomic<bool>* helper_done = nullptr;
     int helper_w0 = 0;
 
-    if (!f->boot()) { emit(fd, "boot-failed"); return; }
-    cur = wait_arrival();
+    bool fail_boot = !toks.empty() && toks[0] == "F";
+    if (fail_boot) g_fail_create.store(true);
+    bool booted = f->boot();
+    if (fail_boot) {
+        if (booted) { emit(fd, "F:booted"); return; }
+        cur = 'f'; g_ended.store(true);     // there is no filtering thread
+    } else {
+        if (!booted) { emit(fd, "boot-failed"); return; }
+        cur = wait_arrival();
+    }
 
     auto observe = [&](const std::string& tok, const char* mark) {
         std::ostringstream o;
@@ -278,7 +295,9 @@ void run_life(int fd, const std::vector<std::string>& toks) {
 
     for (const std::string& tok : toks) {
         char c = tok[0];
-        if (tok == "b1") {                  // reboot() up to the point between its two stores
+        if (tok == "F") {
+            observe(tok, "");
+        } else if (tok == "b1") {                  // reboot() up to the point between its two stores
             if (rb || helper) { emit(fd, "bad-schedule"); return; }
             rb_w0 = g_wakes.load();
             g_split.store(true);
